@@ -83,6 +83,8 @@ LIB = {
     "Template:!": "|",
     "Template:w1": "{{#invoke:echo|both|{{{1}}}|k={{{k|}}}}}",
     "Template:w2": "{{w1|{{{1}}}|k={{{k|}}}}}",
+    # the same invocation twice in one body: both see the same parent frame
+    "Template:w1x2": "{{#invoke:echo|both|{{{1}}}|k={{{k|}}}}}%%{{#invoke:echo|both|{{{1}}}|k={{{k|}}}}}",
     "Template:pw": "{{#invoke:echo|pp|{{{1}}}}}",
     "Template:pw2": "{{#invoke:echo|pp|{{{1}}}}}",
     "Template:wa": "{{#invoke:echo|dump|{{#invoke:echo|both}}}}",
@@ -229,6 +231,13 @@ def check_args(ctx, lst):
             wantp = {1: (fwd[1][:-1] if fwd[1].endswith("\n") else fwd[1]), "k": fwd["k"].strip()}
         if parse_dump(pargs) != wantp:
             out.append(("parent_args_depth%d%s" % (depth, eq if depth == 2 else ""), js(parse_dump(pargs)), js(wantp)))
+    # two invocations under one template call: each gives what the single one gives (differential against w1)
+    ctx.start_page("Tt")
+    one = ctx.expand("{{w1|%s}}" % txt).replace("P{Template:w1##", "P{Template:w1x2##")
+    ctx.start_page("Tt")
+    two = ctx.expand("{{w1x2|%s}}" % txt)
+    if two != one + "%%" + one:
+        out.append(("second_invocation_under_the_same_parent", two[:300], (one + "%%" + one)[:300]))
     return out
 
 
